@@ -30,7 +30,7 @@ RULE = (
     'displacements, cumulative_displacements, distances, msd, tracer_diffusivity, drift, to_volume, get_structure, len, '
     'get_lattice, transitions}; deriving menu {filter x3, every slice a:b:c with a,b in {None,-4..4}, c in {None,1,2,-1} '
     'selecting >=1 frame, list index, split(n,equal)[k], extend(other), drift correction x2, center_of_mass, cache round '
-    'trip}; <= 3 live objects, derivation nesting <= 2; state = exact bytes of the real representation + reference'
+    'trip}; observations: positions, displacements, distances, metadata, filter, slice, tracer diffusivity + MSD; <= 3 live objects, derivation nesting <= 2; state = exact bytes of the real representation + reference'
 )
 LEVEL_TEXT = (
     'Explicit-state model checking of the real Trajectory object: all call sequences up to the depth bound '
